@@ -1,11 +1,18 @@
 (* C15 — wire format, model runner and the trace oracle prop_ok. Definitions only.
 
-   case  = kind flavour k alpha timeout local qtag qn known  npeers dist*  nseeds seed*
-           nkprov (peer naddr addr* )*  nevents event*
-   event = 0 now | 1 p recflag recid npeers peer* nprov (peer naddr addr* )* | 2 p | 3 p | 4 p | 5 p
-           (3/4: register_send_success/failure, 5: response of the wrong message type)
-   trace = 1 (action dump)*      one pair per event
-   action = 0 | 1 p | 2 | 3 n peer* | 4 p r | 5 | 6 n (peer naddr addr* )*
+   single-query case (one query in the engine):
+     case  = kind flavour k alpha timeout local qtag qn known  npeers dist*  nseeds seed*
+             nkprov (peer naddr addr* )*  nevents event*
+     event = 0 now | 1 p recflag recid npeers peer* nprov (peer naddr addr* )* | 2 p | 3 p | 4 p | 5 p | 6 p
+             (3/4: register_send_success/failure, 5: response of the wrong message type,
+              6: next_peer_action)
+   multi-query case (several queries in one engine, same target key):
+     case  = 9 k alpha timeout local npeers dist*  nq query*  nevents mevent*
+     query = kind flavour qtag qn known nseeds seed* nkprov (peer naddr addr* )*
+     mevent = 0 now choice | 1 q p recflag recid ... | 2 q p | 3 q p | 4 q p | 5 q p | 6 q p
+              (choice = 0: the engine returned nothing; i+1: the action came from query i)
+   trace = 1 (action dump^nq)*      one group per event
+   action = 0 | 1 p | 2 | 3 n peer* | 4 p r | 5 | 6 n (peer naddr addr* )* | 7 p (next_peer_action)
    dump  = 0 (query gone) | 1 cands pend queried resps pr found recq provs  (count-prefixed lists) *)
 From Coq Require Import List NArith Bool.
 From V.common Require Import Wire.
@@ -13,49 +20,73 @@ From V.C15 Require Import Model.
 Import ListNotations.
 Open Scope N_scope.
 
-Record case := mkCase {
-  k_cfg : cfg;
-  k_seeds : list N;
-  k_events : list event
-}.
+Record qspec := mkQ { q_cfg : cfg; q_seeds : list N }.
+Inductive gevent := GM (m : mevent) | GPeerAct (q p : N).
+Inductive gaction := GA (a : action) | GAPeer (p : N).
+Record gcase := mkCase { g_qs : list qspec; g_events : list gevent }.
 
 Definition p_entry : parser (N * list N) :=
   let* p := pN in let* a := plist pN in pret (p, a).
 
-Definition p_event : parser event :=
+(* multi = true: events carry a query index (and next_action carries the implementation's choice) *)
+Definition p_event (multi : bool) : parser gevent :=
+  let pq : parser N := if multi then pN else pret 0 in
   let* tag := pN in
   match tag with
-  | 0 => let* now := pN in pret (ENext now)
-  | 1 => let* p := pN in let* flag := pN in let* id := pN in
+  | 0 => let* now := pN in let* ch := (if multi then pN else pret 1) in pret (GM (MNext now ch))
+  | 1 => let* q := pq in let* p := pN in let* flag := pN in let* id := pN in
          let* peers := plist pN in let* provs := plist p_entry in
-         pret (EResp p (mkReply peers
-                          (if flag =? 0 then None else Some (id, negb (flag =? 1))) provs))
-  | 2 => let* p := pN in pret (EFail p)
-  | 3 => let* p := pN in pret (ENoop p)
-  | 4 => let* p := pN in pret (ENoop p)
-  | 5 => let* p := pN in pret (EFail p)
+         pret (GM (MEv q (EResp p (mkReply peers
+                          (if flag =? 0 then None else Some (id, negb (flag =? 1))) provs))))
+  | 2 => let* q := pq in let* p := pN in pret (GM (MEv q (EFail p)))
+  | 3 => let* q := pq in let* p := pN in pret (GM (MEv q (ENoop p)))
+  | 4 => let* q := pq in let* p := pN in pret (GM (MEv q (ENoop p)))
+  | 5 => let* q := pq in let* p := pN in pret (GM (MEv q (EFail p)))
+  | 6 => let* q := pq in let* p := pN in pret (GPeerAct q p)
   | _ => pfail
   end.
 
 Definition kind_of (x : N) : option kind :=
   match x with 0 => Some KFind | 1 => Some KRecord | 2 => Some KProviders | _ => None end.
 
-Definition p_case : parser case :=
-  let* kd := pN in let* _flavour := pN in let* k := pN in let* alpha := pN in let* timeout := pN in let* local := pN in
-  let* qtag := pN in let* qn := pN in let* known := pN in
+Definition mk_cfg (kd : kind) (k alpha timeout local qtag qn known : N) (kprov : list (N * list N))
+           (dists : list N) : cfg :=
+  let needed := match qtag with 0 => k | 1 => 1 | _ => qn end in
+  mkCfg kd k alpha timeout local needed known kprov (fun p => nth (N.to_nat p) dists 0).
+
+Definition p_single : parser gcase :=
+  let* kd := pN in let* _flavour := pN in let* k := pN in let* alpha := pN in let* timeout := pN in
+  let* local := pN in let* qtag := pN in let* qn := pN in let* known := pN in
   let* dists := plist pN in
   let* seeds := plist pN in
   let* kprov := plist p_entry in
-  let* evs := plist p_event in
+  let* evs := plist (p_event false) in
   match kind_of kd with
-  | Some kd' =>
-      let needed := match qtag with 0 => k | 1 => 1 | _ => qn end in
-      pret (mkCase (mkCfg kd' k alpha timeout local needed known kprov
-                          (fun p => nth (N.to_nat p) dists 0)) seeds evs)
+  | Some kd' => pret (mkCase [mkQ (mk_cfg kd' k alpha timeout local qtag qn known kprov dists) seeds] evs)
   | None => pfail
   end.
 
-Definition decode_case (l : list N) : option case := pall p_case l.
+Definition p_query (k alpha timeout local : N) (dists : list N) : parser qspec :=
+  let* kd := pN in let* _flavour := pN in let* qtag := pN in let* qn := pN in let* known := pN in
+  let* seeds := plist pN in
+  let* kprov := plist p_entry in
+  match kind_of kd with
+  | Some kd' => pret (mkQ (mk_cfg kd' k alpha timeout local qtag qn known kprov dists) seeds)
+  | None => pfail
+  end.
+
+Definition p_multi : parser gcase :=
+  let* k := pN in let* alpha := pN in let* timeout := pN in let* local := pN in
+  let* dists := plist pN in
+  let* qs := plist (p_query k alpha timeout local dists) in
+  let* evs := plist (p_event true) in
+  pret (mkCase qs evs).
+
+Definition decode_case (l : list N) : option gcase :=
+  match l with
+  | 9 :: t => pall p_multi t
+  | _ => pall p_single l
+  end.
 
 (* ---- encoders ---- *)
 Definition enc_entries (l : list (N * list N)) : list N :=
@@ -83,29 +114,41 @@ Definition dump (s : state) : list N :=
        enc_ns (map fst (recq s)) ++
        enc_ns (map fst (provs s)).
 
-Fixpoint run_trace (c : cfg) (s : state) (es : list event) : list N :=
+Definition dumps (eng : engine) : list N := flat_map (fun cs : cfg * state => dump (snd cs)) eng.
+
+Fixpoint run_trace (eng : engine) (es : list gevent) : list N :=
   match es with
   | [] => []
-  | e :: t => let '(s1, a) := step c s e in enc_action a ++ dump s1 ++ run_trace c s1 t
+  | GM m :: t =>
+      let '(eng1, a, _) := mstep eng m in enc_action a ++ dumps eng1 ++ run_trace eng1 t
+  | GPeerAct q p :: t =>
+      (match nth_error eng (N.to_nat q) with
+       | Some (_, s) => if peer_msg s p then [7; p] else [0]
+       | None => [0]
+       end) ++ dumps eng ++ run_trace eng t
   end.
+
+Definition start (qs : list qspec) : engine :=
+  map (fun q => (q_cfg q, init (q_cfg q) (q_seeds q))) qs.
 
 Definition run_case (l : list N) : list N :=
   match decode_case l with
-  | Some k => 1 :: run_trace (k_cfg k) (init (k_cfg k) (k_seeds k)) (k_events k)
+  | Some k => 1 :: run_trace (start (g_qs k)) (g_events k)
   | None => [0]
   end.
 
 (* ---- decoding a trace ---- *)
-Definition p_action : parser action :=
+Definition p_action : parser gaction :=
   let* tag := pN in
   match tag with
-  | 0 => pret ANone
-  | 1 => let* p := pN in pret (ASend p)
-  | 2 => pret AFailed
-  | 3 => let* l := plist pN in pret (AFound l)
-  | 4 => let* p := pN in let* r := pN in pret (APartial p r)
-  | 5 => pret ARecDone
-  | 6 => let* l := plist p_entry in pret (AProvDone l)
+  | 0 => pret (GA ANone)
+  | 1 => let* p := pN in pret (GA (ASend p))
+  | 2 => pret (GA AFailed)
+  | 3 => let* l := plist pN in pret (GA (AFound l))
+  | 4 => let* p := pN in let* r := pN in pret (GA (APartial p r))
+  | 5 => pret (GA ARecDone)
+  | 6 => let* l := plist p_entry in pret (GA (AProvDone l))
+  | 7 => let* p := pN in pret (GAPeer p)
   | _ => pfail
   end.
 
@@ -118,8 +161,8 @@ Definition p_dump : parser unit :=
   | _ => pfail
   end.
 
-Definition p_steps (n : nat) : parser (list action) :=
-  prep n (let* a := p_action in let* _ := p_dump in pret a).
+Definition p_steps (nq n : nat) : parser (list gaction) :=
+  prep n (let* a := p_action in let* _ := prep nq p_dump in pret a).
 
 (* ---- the oracle: the property text judged on (events, observed actions) ---- *)
 Record ost := mkO {
@@ -149,15 +192,17 @@ Definition found_ok (c : cfg) (o : ost) (l : list N) : bool :=
   forallb (fun p => mem p (o_ans o)) l &&
   sorted_dist (c_dist c) l &&
   (N.of_nat (length l) <=? c_k c) &&
+  (* the k closest of all that answered: whoever answered and is not reported is farther than
+     every reported peer, and then k peers are reported *)
+  forallb (fun q => mem q l ||
+                    ((N.of_nat (length l) =? c_k c) &&
+                     forallb (fun w => c_dist c w <? c_dist c q) l)) (o_ans o) &&
   match last_opt l with
   | None => true
   | Some w =>
       forallb (fun p => (p =? c_local c) || negb (c_dist c p <? c_dist c w) || mem p (o_sent o))
               (o_known o)
   end.
-
-Definition addrs_of (p : N) (l : list (N * list N)) : list N :=
-  flat_map (fun x : N * list N => if fst x =? p then snd x else []) l.
 
 (* GetProviders result: every provider peer exactly once, sorted by distance, addresses = the
    union of everything reported for that peer *)
@@ -241,12 +286,52 @@ Definition judge (c : cfg) (local_seed : bool) (o : ost) (e : event) (a : action
   | ENoop _ => match a with ANone => Some o | _ => None end
   end.
 
-Fixpoint judge_all (c : cfg) (ls : bool) (o : ost) (es : list event) (acts : list action) : bool :=
+
+(* per query: configuration, "local peer among the seeds", oracle state *)
+Definition jq := (cfg * bool * ost)%type.
+
+Definition judge_q (x : jq) (e : event) (a : action) : option jq :=
+  let '(c, ls, o) := x in
+  match judge c ls o e a with Some o' => Some (c, ls, o') | None => None end.
+
+Fixpoint judge_each (xs : list jq) (e : event) (a : action) : option (list jq) :=
+  match xs with
+  | [] => Some []
+  | x :: t =>
+      match judge_q x e a, judge_each t e a with
+      | Some x', Some t' => Some (x' :: t')
+      | _, _ => None
+      end
+  end.
+
+Definition judge_at (xs : list jq) (i : nat) (e : event) (a : action) : option (list jq) :=
+  match nth_error xs i with
+  | Some x => match judge_q x e a with Some x' => Some (upd i x' xs) | None => None end
+  | None => match a with ANone => Some xs | _ => None end
+  end.
+
+Definition judge_g (xs : list jq) (e : gevent) (a : gaction) : option (list jq) :=
+  match e, a with
+  | GM (MNext now 0), GA ANone => judge_each xs (ENext now) ANone   (* every query was polled *)
+  | GM (MNext now 0), _ => None
+  | GM (MNext now ch), GA a' => judge_at xs (N.to_nat (ch - 1)) (ENext now) a'
+  | GM (MEv q e'), GA a' => judge_at xs (N.to_nat q) e' a'
+  | GPeerAct q p, GA ANone => Some xs
+  | GPeerAct q p, GAPeer p' =>
+      (* a message is only handed out for an outstanding request of a live query *)
+      match nth_error xs (N.to_nat q) with
+      | Some (_, _, o) => if (p' =? p) && pmem p (o_fl o) && negb (o_term o) then Some xs else None
+      | None => None
+      end
+  | _, _ => None
+  end.
+
+Fixpoint judge_all (xs : list jq) (es : list gevent) (acts : list gaction) : bool :=
   match es, acts with
   | [], [] => true
   | e :: es', a :: acts' =>
-      match judge c ls o e a with
-      | Some o' => judge_all c ls o' es' acts'
+      match judge_g xs e a with
+      | Some xs' => judge_all xs' es' acts'
       | None => false
       end
   | _, _ => false
@@ -255,10 +340,11 @@ Fixpoint judge_all (c : cfg) (ls : bool) (o : ost) (es : list event) (acts : lis
 Definition prop_ok (case trace : list N) : bool :=
   match decode_case case, trace with
   | Some k, 1 :: body =>
-      match pall (p_steps (length (k_events k))) body with
+      match pall (p_steps (length (g_qs k)) (length (g_events k))) body with
       | Some acts =>
-          judge_all (k_cfg k) (mem (c_local (k_cfg k)) (k_seeds k))
-                    (mkO [] [] [] (k_seeds k) [] [] [] false) (k_events k) acts
+          judge_all (map (fun q => (q_cfg q, mem (c_local (q_cfg q)) (q_seeds q),
+                                    mkO [] [] [] (q_seeds q) [] [] [] false)) (g_qs k))
+                    (g_events k) acts
       | None => false
       end
   | None, [0] => true
